@@ -741,6 +741,10 @@ impl ReCompiler {
                     || quantifier_type == Some('*')
                     || (quantifier_type == Some('{') && self.bracket_min == 0)
                 {
+                    // the quantifier may carry a reluctant marker
+                    if self.idx < self.len && self.pattern[self.idx] == '?' {
+                        self.idx += 1;
+                    }
                     return Ok(Operation::from(Nothing));
                 } else {
                     quantifier_type = None
